@@ -80,6 +80,9 @@ type world struct {
 	closeFails   bool          // set before the first dial: Close reports an error after closing
 	writeLatency time.Duration // set before the first dial, never changed
 	onExhaust    func()        // called (no locks held) when consec reaches budget
+
+	appClosing    atomic.Bool // the application has called Close on the transport under test
+	healthyClosed []int       // incarnations the library closed although nothing had failed on them and no Close was called
 }
 
 // attempt records the outcome of one redial attempt.
@@ -202,12 +205,13 @@ type snapshot struct {
 	// bookkeeping for the evidence
 	Rejected      int
 	UnclosedHsInc int
+	HealthyClosed []int
 }
 
 func (w *world) snap() (s snapshot) {
 	w.mu.Lock()
 	defer w.mu.Unlock()
-	s = snapshot{Dials: append([]dialRec(nil), w.dials...)}
+	s = snapshot{Dials: append([]dialRec(nil), w.dials...), HealthyClosed: append([]int(nil), w.healthyClosed...)}
 	defer func() { sort.Slice(s.Dlvs, func(i, j int) bool { return s.Dlvs[i].Seq < s.Dlvs[j].Seq }) }()
 	for _, c := range w.incs {
 		c.mu.Lock()
@@ -410,7 +414,14 @@ func (c *inc) CloseWithStatus(transport.CloseStatus) error {
 	if !c.closed {
 		c.closed = true
 		close(c.closedCh)
+		healthy := !c.readFail && !c.writeFail && !c.hsErr && c.readFailAfter != 0 && c.writeFailAfter != 0
 		c.mu.Unlock()
+		if healthy && !c.w.appClosing.Load() {
+			// the world never failed this connection and the application has not asked for a Close
+			c.w.mu.Lock()
+			c.w.healthyClosed = append(c.w.healthyClosed, c.id)
+			c.w.mu.Unlock()
+		}
 		if d := c.w.closeLatency; d > 0 {
 			time.Sleep(d) // a closing handshake takes time; the connection refuses writes meanwhile (real clock only)
 		}
